@@ -7,7 +7,7 @@ use poulpy_hal::{
         VecZnxNormalizeTmpBytes, VecZnxRotate, VecZnxRotateAssign, VecZnxRotateAssignTmpBytes, VecZnxRshAssign,
         VecZnxRshTmpBytes, VecZnxSub, VecZnxSubAssign, VecZnxSubNegateAssign, VecZnxZero,
     },
-    layouts::{Backend, DataMut, DataRef, Module, Scratch, VecZnx, VecZnxBig},
+    layouts::{Backend, DataMut, DataRef, Module, Scratch, VecZnx, VecZnxBig, VecZnxToRef},
 };
 
 pub use crate::api::{
@@ -205,20 +205,21 @@ where
 
         let ab_base2k: usize = a.base2k().as_usize();
         assert_eq!(b.base2k().as_usize(), ab_base2k);
-        assert_eq!(a_effective_k.div_ceil(ab_base2k), a.size());
-        assert_eq!(b_effective_k.div_ceil(ab_base2k), b.size());
+        let a_data: VecZnx<&[u8]> = effective_limbs(a.data(), a_effective_k, ab_base2k);
+        let b_data: VecZnx<&[u8]> = effective_limbs(&b.data, b_effective_k, ab_base2k);
+        let (a_size, b_size): (usize, usize) = (a_data.size, b_data.size);
         let res_base2k: usize = res.base2k().as_usize();
 
         let cols: usize = res.rank().as_usize() + 1;
 
-        let (mut a_prep, scratch_1) = scratch.take_cnv_pvec_left(self, cols, a.size());
-        let (mut b_prep, scratch_2) = scratch_1.take_cnv_pvec_right(self, 1, b.size());
+        let (mut a_prep, scratch_1) = scratch.take_cnv_pvec_left(self, cols, a_size);
+        let (mut b_prep, scratch_2) = scratch_1.take_cnv_pvec_right(self, 1, b_size);
 
         let a_mask = msb_mask_bottom_limb(ab_base2k, a_effective_k);
         let b_mask = msb_mask_bottom_limb(ab_base2k, b_effective_k);
 
-        self.cnv_prepare_left(&mut a_prep, a.data(), a_mask, scratch_2);
-        self.cnv_prepare_right(&mut b_prep, b.data(), b_mask, scratch_2);
+        self.cnv_prepare_left(&mut a_prep, &a_data, a_mask, scratch_2);
+        self.cnv_prepare_right(&mut b_prep, &b_data, b_mask, scratch_2);
 
         let (cnv_offset_hi, cnv_offset_lo) = if cnv_offset < ab_base2k {
             (0, -((ab_base2k - (cnv_offset % ab_base2k)) as i64))
@@ -226,7 +227,7 @@ where
             ((cnv_offset / ab_base2k).saturating_sub(1), (cnv_offset % ab_base2k) as i64)
         };
 
-        let res_dft_size = a.size() + b.size() - cnv_offset_hi;
+        let res_dft_size = a_size + b_size - cnv_offset_hi;
 
         for i in 0..cols {
             let (mut res_dft, scratch_3) = scratch_2.take_vec_znx_dft(self, 1, res_dft_size);
@@ -269,19 +270,25 @@ where
 
         let ab_base2k: usize = a.base2k().as_usize();
         assert_eq!(res.base2k().as_usize(), ab_base2k);
-        assert_eq!(res_effective_k.div_ceil(ab_base2k), res.size());
-        assert_eq!(a_effective_k.div_ceil(ab_base2k), a.size());
+        let a_data: VecZnx<&[u8]> = effective_limbs(&a.data, a_effective_k, ab_base2k);
+        let a_size: usize = a_data.size;
+        let res_in_size: usize = res_effective_k.div_ceil(ab_base2k);
 
         let cols: usize = res.rank().as_usize() + 1;
 
-        let (mut res_prep, scratch_1) = scratch.take_cnv_pvec_left(self, cols, res.size());
-        let (mut a_prep, scratch_2) = scratch_1.take_cnv_pvec_right(self, 1, a.size());
+        let (mut res_prep, scratch_1) = scratch.take_cnv_pvec_left(self, cols, res_in_size);
+        let (mut a_prep, scratch_2) = scratch_1.take_cnv_pvec_right(self, 1, a_size);
 
         let mask_res = msb_mask_bottom_limb(ab_base2k, res_effective_k);
         let mask_a = msb_mask_bottom_limb(ab_base2k, a_effective_k);
 
-        self.cnv_prepare_left(&mut res_prep, res.data(), mask_res, scratch_2);
-        self.cnv_prepare_right(&mut a_prep, a.data(), mask_a, scratch_2);
+        self.cnv_prepare_left(
+            &mut res_prep,
+            &effective_limbs(res.data(), res_effective_k, ab_base2k),
+            mask_res,
+            scratch_2,
+        );
+        self.cnv_prepare_right(&mut a_prep, &a_data, mask_a, scratch_2);
 
         let (cnv_offset_hi, cnv_offset_lo) = if cnv_offset < ab_base2k {
             (0, -((ab_base2k - (cnv_offset % ab_base2k)) as i64))
@@ -289,7 +296,7 @@ where
             ((cnv_offset / ab_base2k).saturating_sub(1), (cnv_offset % ab_base2k) as i64)
         };
 
-        let res_dft_size = a.size() + res.size() - cnv_offset_hi;
+        let res_dft_size = a_size + res_in_size - cnv_offset_hi;
 
         for i in 0..cols {
             let (mut res_dft, scratch_3) = scratch_2.take_vec_znx_dft(self, 1, res_dft_size);
@@ -630,17 +637,18 @@ where
 
         let a_base2k: usize = a.base2k().as_usize();
 
-        assert_eq!(a_effective_k.div_ceil(a_base2k), a.size());
+        let a_data: VecZnx<&[u8]> = effective_limbs(a.data(), a_effective_k, a_base2k);
+        let a_size: usize = a_data.size;
 
         let res_base2k: usize = res.base2k().as_usize();
         let cols: usize = res.rank().as_usize() + 1;
 
-        let (mut a_prep, scratch_1) = scratch.take_cnv_pvec_left(self, cols, a.size());
-        let (mut b_prep, scratch_2) = scratch_1.take_cnv_pvec_right(self, cols, a.size());
+        let (mut a_prep, scratch_1) = scratch.take_cnv_pvec_left(self, cols, a_size);
+        let (mut b_prep, scratch_2) = scratch_1.take_cnv_pvec_right(self, cols, a_size);
 
         let a_mask = msb_mask_bottom_limb(a_base2k, a_effective_k);
 
-        self.cnv_prepare_self(&mut a_prep, &mut b_prep, a.data(), a_mask, scratch_2);
+        self.cnv_prepare_self(&mut a_prep, &mut b_prep, &a_data, a_mask, scratch_2);
         let (mut diag_terms, scratch_3) = scratch_2.take_vec_znx(self.n(), cols, res.size());
 
         let (cnv_offset_hi, cnv_offset_lo) = if cnv_offset < a_base2k {
@@ -650,9 +658,9 @@ where
         };
 
         let diag_dft_size =
-            normalize_input_limb_bound_with_offset(2 * a.size() - cnv_offset_hi, res.size(), res_base2k, a_base2k, cnv_offset_lo);
+            normalize_input_limb_bound_with_offset(2 * a_size - cnv_offset_hi, res.size(), res_base2k, a_base2k, cnv_offset_lo);
         let pairwise_dft_size =
-            normalize_input_limb_bound_with_offset(2 * a.size() - cnv_offset_hi, res.size(), res_base2k, a_base2k, cnv_offset_lo);
+            normalize_input_limb_bound_with_offset(2 * a_size - cnv_offset_hi, res.size(), res_base2k, a_base2k, cnv_offset_lo);
 
         for i in 0..cols {
             let col_i: usize = i * cols - (i * (i + 1) / 2);
@@ -720,21 +728,22 @@ where
 
         let ab_base2k: usize = a.base2k().as_usize();
         assert_eq!(b.base2k().as_usize(), ab_base2k);
-        assert_eq!(a_effective_k.div_ceil(ab_base2k), a.size());
-        assert_eq!(b_effective_k.div_ceil(ab_base2k), b.size());
+        let a_data: VecZnx<&[u8]> = effective_limbs(a.data(), a_effective_k, ab_base2k);
+        let b_data: VecZnx<&[u8]> = effective_limbs(b.data(), b_effective_k, ab_base2k);
+        let (a_size, b_size): (usize, usize) = (a_data.size, b_data.size);
 
         let res_base2k: usize = res.base2k().as_usize();
 
         let cols: usize = res.rank().as_usize() + 1;
 
-        let (mut a_prep, scratch_1) = scratch.take_cnv_pvec_left(self, cols, a.size());
-        let (mut b_prep, scratch_2) = scratch_1.take_cnv_pvec_right(self, cols, b.size());
+        let (mut a_prep, scratch_1) = scratch.take_cnv_pvec_left(self, cols, a_size);
+        let (mut b_prep, scratch_2) = scratch_1.take_cnv_pvec_right(self, cols, b_size);
 
         let a_mask = msb_mask_bottom_limb(ab_base2k, a_effective_k);
         let b_mask = msb_mask_bottom_limb(ab_base2k, b_effective_k);
 
-        self.cnv_prepare_left(&mut a_prep, a.data(), a_mask, scratch_2);
-        self.cnv_prepare_right(&mut b_prep, b.data(), b_mask, scratch_2);
+        self.cnv_prepare_left(&mut a_prep, &a_data, a_mask, scratch_2);
+        self.cnv_prepare_right(&mut b_prep, &b_data, b_mask, scratch_2);
 
         // Example for rank=3
         //
@@ -761,14 +770,14 @@ where
         };
 
         let diag_dft_size = normalize_input_limb_bound_with_offset(
-            a.size() + b.size() - cnv_offset_hi,
+            a_size + b_size - cnv_offset_hi,
             res.size(),
             res_base2k,
             ab_base2k,
             cnv_offset_lo,
         );
         let pairwise_dft_size = normalize_input_limb_bound_with_offset(
-            a.size() + b.size() - cnv_offset_hi,
+            a_size + b_size - cnv_offset_hi,
             res.size(),
             res_base2k,
             ab_base2k,
@@ -841,20 +850,21 @@ where
 
         let ab_base2k: usize = a.base2k().as_usize();
         assert_eq!(b.base2k().as_usize(), ab_base2k);
-        assert_eq!(a_effective_k.div_ceil(ab_base2k), a.size());
-        assert_eq!(b_effective_k.div_ceil(ab_base2k), b.size());
+        let a_data: VecZnx<&[u8]> = effective_limbs(a.data(), a_effective_k, ab_base2k);
+        let b_data: VecZnx<&[u8]> = effective_limbs(b.data(), b_effective_k, ab_base2k);
+        let (a_size, b_size): (usize, usize) = (a_data.size, b_data.size);
 
         let res_base2k: usize = res.base2k().as_usize();
         let cols: usize = res.rank().as_usize() + 1;
 
-        let (mut a_prep, scratch_1) = scratch.take_cnv_pvec_left(self, cols, a.size());
-        let (mut b_prep, scratch_2) = scratch_1.take_cnv_pvec_right(self, cols, b.size());
+        let (mut a_prep, scratch_1) = scratch.take_cnv_pvec_left(self, cols, a_size);
+        let (mut b_prep, scratch_2) = scratch_1.take_cnv_pvec_right(self, cols, b_size);
 
         let a_mask = msb_mask_bottom_limb(ab_base2k, a_effective_k);
         let b_mask = msb_mask_bottom_limb(ab_base2k, b_effective_k);
 
-        self.cnv_prepare_left(&mut a_prep, a.data(), a_mask, scratch_2);
-        self.cnv_prepare_right(&mut b_prep, b.data(), b_mask, scratch_2);
+        self.cnv_prepare_left(&mut a_prep, &a_data, a_mask, scratch_2);
+        self.cnv_prepare_right(&mut b_prep, &b_data, b_mask, scratch_2);
 
         let (cnv_offset_hi, cnv_offset_lo) = if cnv_offset < ab_base2k {
             (0, -((ab_base2k - (cnv_offset % ab_base2k)) as i64))
@@ -863,14 +873,14 @@ where
         };
 
         let diag_dft_size = normalize_input_limb_bound_with_offset(
-            a.size() + b.size() - cnv_offset_hi,
+            a_size + b_size - cnv_offset_hi,
             res.size(),
             res_base2k,
             ab_base2k,
             cnv_offset_lo,
         );
         let pairwise_dft_size = normalize_input_limb_bound_with_offset(
-            a.size() + b.size() - cnv_offset_hi,
+            a_size + b_size - cnv_offset_hi,
             res.size(),
             res_base2k,
             ab_base2k,
@@ -924,6 +934,24 @@ pub fn msb_mask_bottom_limb(base2k: usize, k: usize) -> i64 {
         0 => !0i64,
         r => (!0i64) << (base2k - r),
     }
+}
+
+/// View of the leading limbs of `a` that cover `effective_k` bits.
+///
+/// Limbs past them (left behind by a shift or a rescale that did not reallocate) lie entirely below
+/// the effective precision: like the bits cleared by [`msb_mask_bottom_limb`] they carry no
+/// information and do not take part in the product.
+#[inline]
+fn effective_limbs<D: DataRef>(a: &VecZnx<D>, effective_k: usize, base2k: usize) -> VecZnx<&[u8]> {
+    let size: usize = effective_k.div_ceil(base2k);
+    assert!(
+        size <= a.size,
+        "effective_k: {effective_k} requires {size} limbs > a.size(): {}",
+        a.size
+    );
+    let mut a_ref: VecZnx<&[u8]> = a.to_ref();
+    a_ref.size = size;
+    a_ref
 }
 
 #[inline]
